@@ -325,8 +325,18 @@ def engineFold (s : List Char) : List Char := s.map Char.toLower
     renamed / aliased column to its display name in the block that orders by the normalised name. -/
 def aliasVisible (display normalised : List Char) : Bool := engineFold display == engineFold normalised
 
-def H_asciiFold (display normalised : List Char) : Prop := engineFold display = engineFold normalised
+/-- is the column `normalised`, standing in an ORDER BY key (`bare`: the key is that column itself, not an
+    expression over it), found by the engine in the block whose select item carries the display alias?
+    `_set_display_names` spells bare keys (or all key columns) like the alias — `Gen.orderByRespell` -/
+def orderKeyVisible (bare : Bool) (display normalised : List Char) : Bool :=
+  match orderByRespell with
+  | .all => true
+  | .bare => bare || aliasVisible display normalised
+  | .none => aliasVisible display normalised
 
-instance (a b : List Char) : Decidable (H_asciiFold a b) := by unfold H_asciiFold; exact inferInstance
+def H_asciiFold (bare : Bool) (display normalised : List Char) : Prop :=
+  orderByRespell = .all ∨ (orderByRespell = .bare ∧ bare = true) ∨ engineFold display = engineFold normalised
+
+instance (b : Bool) (x y : List Char) : Decidable (H_asciiFold b x y) := by unfold H_asciiFold; exact inferInstance
 
 end Sqlframe.C10
